@@ -469,6 +469,53 @@ func TestRaceAndAtomicSwitch(t *testing.T) {
 			t.Fatalf("%s", m)
 		default:
 		}
+		// First touches of brand-new resources, released together: the first rule load for the resource races with its first
+		// requests. Once everything has returned, the loaded rule (2 per second) is the one in force and it must see the
+		// requests of the resource: of six further requests within the same second at most two are admitted.
+		for b := 0; b < 24; b++ {
+			res := fmt.Sprint("first-", atomic.AddInt64(&freshN, 1))
+			k := 2 + b%4
+			var start, done sync.WaitGroup
+			start.Add(1)
+			for j := 0; j < k; j++ {
+				j := j
+				done.Add(1)
+				go func() {
+					defer done.Done()
+					defer guard("first touch")
+					start.Wait()
+					if j == b%k {
+						if _, err := flow.LoadRulesOfResource(res, []*flow.Rule{{ID: "first", Resource: res, Threshold: 2}}); err != nil {
+							report("rule load returned %v", err)
+						}
+					} else if e, blk := sentinel.Entry(res); blk == nil {
+						e.Exit()
+					}
+				}()
+			}
+			t0 := time.Now()
+			start.Done()
+			waitOrDie(&done, "first touches of a new resource")
+			admitted := 0
+			for j := 0; j < 6; j++ {
+				if e, blk := sentinel.Entry(res); blk == nil {
+					admitted++
+					e.Exit()
+				}
+			}
+			if el := time.Since(t0); el < 400*time.Millisecond && admitted > 2 {
+				t.Fatalf("new resource %s: its first rule load (2 per second) raced with its first %d request(s); after all of them returned, %d of 6 requests made within %v were admitted: they were decided without the statistics the loaded rule reads", res, k-1, admitted, el)
+			}
+			if n := stat.GetResourceNode(res); n == nil || n.CurrentConcurrency() != 0 {
+				t.Fatalf("new resource %s: after its first requests raced and all exited, the resource node is missing or reports entries in flight", res)
+			}
+			c.Count("first_touch_bursts", 1)
+		}
+		select {
+		case m := <-fail:
+			t.Fatalf("%s", m)
+		default:
+		}
 		c.Count("rule_swaps", atomic.LoadInt64(&swaps))
 		c.Count("rule_swaps_while_request_in_flight", atomic.LoadInt64(&swapsDuringFlight))
 		c.Count("requests_on_switched_resource", atomic.LoadInt64(&swRequests))
